@@ -5,9 +5,9 @@ B110 try_except_pass, B112 try_except_continue.
 
 programs(rng, tier) -> list of dict(src, include, config).  Deterministic given rng.
 
-Shapes deliberately NOT generated (the finding text embeds str() of an AST object, which the model
-can only mark): tarfile `extractall(members=<neither a Name nor a Call>)`, e.g. members=[...], members=None,
-members=o.attr, members='s'.  See AVOIDED_SHAPES.
+B202 `extractall(members=<neither a Name nor a Call>)` embeds str() of an AST object in the finding
+text; the harness canonicalises `<ast.X object at 0x...>` to `<AST-OBJECT>` (the model's marker), so
+these shapes are generated too (MEMBERS_NODE_VALUES).
 
 B101 skips globs: the implementation matches the glob against the full path of the scanned file
 (<scratch dir>/t.py), the model against "t.py".  Only globs whose outcome is the same for both are
@@ -18,10 +18,7 @@ import itertools
 
 ALL_IDS = ["B506", "B614", "B202", "B201", "B612", "B601", "B102", "B101", "B110", "B112"]
 
-AVOIDED_SHAPES = [
-    "t.extractall(members=[m for m in t])", "t.extractall(members=None)", "t.extractall(members=o.ms)",
-    "t.extractall(members='s')", "t.extractall(members=t.getmembers()[1:])",
-]
+AVOIDED_SHAPES = []
 
 # every literal kind / expression kind as an argument value
 VALUES = [
@@ -272,7 +269,11 @@ TAR_IMPORTS = [
 TAR_CALLEES = ["zz_t.extractall", "tarfile.open(zz_p).extractall", "extractall", "zz_my_extractall2",
                "zz_t.extractall_x", "zz_t.x_extractall", "zz_t.extract", "zz_t.zz.extractall",
                "zz_t.extractall.zz", "zz_f().extractall", "zz_t.Extractall", "tarfile.TarFile.extractall"]
-# members values the model can render: Names and Calls
+# members values that are neither a Name nor a Call: {'Other': <AST-OBJECT>}
+MEMBERS_NODE_VALUES = ["[m for m in zz_t]", "None", "zz_o.ms", "'s'", "zz_t.getmembers()[1:]", "[]", "...",
+                       "{[1]}", "(m for m in zz_t if zz_ok(m))", "zz_ms or None", "[zz_a, zz_b]", "lambda: 0",
+                       "f'{zz_x}'", "zz_d['k']", "True", "b'x'", "1"]
+# Names and Calls
 MEMBERS_VALUES = ["zz_ms", "zz_f(zz_t)", "zz_f()", "zz_o.m(zz_t)", "zz_t.getmembers()", "zz_f()()",
                   "(lambda: zz_x)()", "zz_a[0]()", "list(zz_t)", "zz_f(zz_t)(zz_u)", "zz_o.a.b()", "é_fn(zz_t)",
                   "members", "é_ms", "Function", "(zz_ms)", "(zz_f)(zz_t)", "zz_f(*zz_a, **zz_k)",
@@ -290,9 +291,12 @@ def gen_tarfile(acc):
             full = kind in ("imp", "imp_as", "two", "imp_and_from") and callee in (
                 "zz_t.extractall", "tarfile.open(zz_p).extractall", "extractall", "zz_my_extractall2")
             if full:
-                for mv in MEMBERS_VALUES:
+                for mv in MEMBERS_VALUES + MEMBERS_NODE_VALUES:
                     argsets.append(["members=%s" % mv])
                     argsets.append(["zz_p", "members=%s" % mv])
+                for mv in MEMBERS_NODE_VALUES[:8]:
+                    for fv in FILTER_VALUES[:4]:
+                        argsets.append(["members=%s" % mv, "filter=%s" % fv])
                 for fv in FILTER_VALUES:
                     argsets.append(["filter=%s" % fv])
                     argsets.append(["zz_p", "filter=%s" % fv])
@@ -323,6 +327,7 @@ def gen_tarfile(acc):
                     argsets.append(["path=%s" % v])
             else:
                 argsets += [["members=zz_ms"], ["members=zz_f(zz_t)"], ["members=zz_t.getmembers()"],
+                            ["members=[m for m in zz_t]"], ["members=None"],
                             ["filter='data'"], ["filter='tar'"], ["members=zz_ms", "filter='data'"],
                             ["zz_kw={[1]}"], ["**zz_k"], ["members=zz_f(zz_t)", "filter=zz_flt"]]
             for args in argsets:
